@@ -29,6 +29,8 @@ type SpecEnv struct {
 	// missingLocal is set when a clause names a local variable of the function that is not in scope in the
 	// state at hand (postconditions over locals are only checked at the returns where the local is live)
 	missingLocal *string
+	// locals: inside old(...) the heap is the entry heap but local variables keep their current values
+	locals *State
 }
 
 func (env *SpecEnv) fail(format string, args ...interface{}) *Val {
@@ -129,7 +131,20 @@ func (env *SpecEnv) evalQuant(q *SQuant) *Val {
 		sym := fmt.Sprintf("q_%s_%d", sanitize(b.Name), env.eng.nfresh)
 		names[b.Name] = &Val{T: t, S: sym}
 		binders = append(binders, fmt.Sprintf("(%s %s)", sym, env.eng.sortOf(t)))
-		typing = append(typing, env.eng.typeFact(&Val{T: t, S: sym}, ""))
+		// no length bound for quantified byte strings: statements such as "every other key is unchanged"
+		// hold for (and must be usable with) byte strings whose length bound is not known to the solver
+		tf := env.eng.typeFact(&Val{T: t, S: sym}, "")
+		switch u := t.Underlying().(type) {
+		case *types.Slice:
+			if isByte(u.Elem()) {
+				tf = "true"
+			}
+		case *types.Basic:
+			if u.Info()&types.IsString != 0 {
+				tf = "true"
+			}
+		}
+		typing = append(typing, tf)
 	}
 	sub := env.with(names)
 	sub.quant++
@@ -249,13 +264,22 @@ func (e *Engine) findImport(pkg *types.Package, name string) *types.Package {
 			return pkg
 		}
 	}
-	// fall back to any loaded package with that name
+	// fall back to a loaded package with that name: packages of this module first, then by path (deterministic)
+	var best *types.Package
 	for _, p := range e.pkgs {
-		if p.Types != nil && p.Types.Name() == name {
-			return p.Types
+		if p.Types == nil || p.Types.Name() != name {
+			continue
+		}
+		if best == nil {
+			best = p.Types
+			continue
+		}
+		bm, pm := strings.HasPrefix(best.Path(), modulePath), strings.HasPrefix(p.Types.Path(), modulePath)
+		if (pm && !bm) || (pm == bm && p.Types.Path() < best.Path()) {
+			best = p.Types
 		}
 	}
-	return nil
+	return best
 }
 
 var boolT = types.Typ[types.Bool]
@@ -266,7 +290,10 @@ func (env *SpecEnv) lookupName(name string) *Val {
 		return v
 	}
 	// local variables of the function under verification, by name and scope position
-	if env.s != nil {
+	for _, st := range []*State{env.s, env.locals} {
+		if st == nil {
+			continue
+		}
 		var best types.Object
 		consider := func(o types.Object) {
 			if o.Name() != name {
@@ -280,19 +307,19 @@ func (env *SpecEnv) lookupName(name string) *Val {
 				best = o
 			}
 		}
-		for o := range env.s.vars {
+		for o := range st.vars {
 			consider(o)
 		}
-		for o := range env.s.boxed {
+		for o := range st.boxed {
 			consider(o)
 		}
 		if best != nil {
-			if v, ok := env.s.vars[best]; ok {
+			if v, ok := st.vars[best]; ok {
 				return v
 			}
-			ref := env.s.boxed[best]
+			ref := st.boxed[best]
 			hn, hs := env.eng.ptrHeap(best.Type())
-			return &Val{T: best.Type(), S: fmt.Sprintf("(select %s %s)", env.s.heap(hn, hs), ref)}
+			return &Val{T: best.Type(), S: fmt.Sprintf("(select %s %s)", st.heap(hn, hs), ref)}
 		}
 	}
 	switch name {
@@ -749,6 +776,9 @@ func (env *SpecEnv) evalNamedCall(name string, x *ast.CallExpr) *Val {
 			return env.fail("old() not available here")
 		}
 		sub := env.inState(env.old)
+		if sub.locals == nil {
+			sub.locals = env.s
+		}
 		// names bound to entry values: parameters in `names` are already entry values
 		v := sub.evalGo(x.Args[0])
 		if sub.err != nil {
